@@ -284,7 +284,8 @@ func parkedInSelect(gid string) bool {
 	return strings.HasPrefix(rest, "[select]") || strings.HasPrefix(rest, "[select,")
 }
 
-func emit(c *reg.Ctx, class string, sc scenario) {
+// emit runs one scenario and emits its case; it reports whether the run hung.
+func emit(c *reg.Ctx, class string, sc scenario) bool {
 	r, direct := execute(sc)
 	r.mu.Lock()
 	obs := append([]string(nil), r.obs...)
@@ -310,6 +311,7 @@ func emit(c *reg.Ctx, class string, sc scenario) {
 		cs.Coq = App("mkCase", List(obs))
 	}
 	c.Emit(cs)
+	return direct != ""
 }
 
 // ---- planted scenarios: the interleavings that the defect-prone code paths need ----
@@ -444,11 +446,15 @@ func run(c *reg.Ctx) {
 	}
 	for rep := 0; rep < reps; rep++ {
 		for _, p := range planted() {
-			emit(c, p.class, p.sc)
+			if emit(c, p.class, p.sc) {
+				return // a hung loop goroutine is still alive; one hang is enough
+			}
 		}
 	}
 	for i := 0; i < c.N; i++ {
 		class, sc := random(c, i)
-		emit(c, class, sc)
+		if emit(c, class, sc) {
+			return
+		}
 	}
 }
